@@ -286,7 +286,58 @@ def inventory_raises(ctx):
     ctx.inventory["raise_sites_reachable_from_solve (not decided)"] = dict(sorted(counts.items()))
 
 
+def rule_r7(ctx):
+    """Optimised length handling: Z3 chooses a value for str.len(x) knowing nothing about the grammar; when no tree of that length exists the attempt must be
+    discarded (the branch is unsatisfiable for that length) - raising out of solve() breaks 'solutions, StopIteration or TimeoutError only'."""
+    f = ctx.repo.func(SOLVER, "ISLaSolver.safe_create_fixed_length_tree", "C02.R7")
+    c = f"{SOLVER}:ISLaSolver.safe_create_fixed_length_tree"
+    raises = [r for r in walk_local(f) if isinstance(r, ast.Raise)]
+    under_none = [r for r in raises if has_fact(facts(r), "fixed_length_tree is None")]
+    if not raises:
+        ctx.ok("R7-unrealisable-length", c, "no exception for a length the grammar cannot realise", site(f), "failure is reported to the caller as a value")
+        return
+    if len(under_none) != len(raises):
+        raise Unrecognised("C02.R7", c, "raise sites other than the `fixed_length_tree is None` case")
+    # is there a handler between this method and solve()?  (callers: extract_model_value_length_var <- extract_model_value <- solve_smt_formulas_with_language_constraints ...)
+    m = ctx.repo.module(SOLVER, "C02.R7")
+    handlers = []
+    for q, fn in m.functions():
+        if not q.startswith("ISLaSolver."):
+            continue
+        for t in [x for x in walk_local(fn) if isinstance(x, ast.Try)]:
+            for h in t.handlers:
+                names = {"BaseException"} if h.type is None else {dotted(e) for e in (h.type.elts if isinstance(h.type, ast.Tuple) else [h.type])}
+                if names & {"RuntimeError", "Exception", "BaseException"} and any(call_name(x) in ("self.extract_model_value", "self.solve_smt_formulas_with_language_constraints", "self.solve_quantifier_free_formula", "self.safe_create_fixed_length_tree") for x in calls_in(t)):
+                    handlers.append(h)
+    ctx.check(bool(handlers), "R7-unrealisable-length", c, "RuntimeError for an unrealisable length is handled before it reaches solve()'s caller", site(under_none[0]),
+              "when Z3's model assigns str.len(x) a length that no tree of x's nonterminal has, safe_create_fixed_length_tree raises RuntimeError and nothing between it and solve() handles it: "
+              "`(exists <digit> d in start: str.len(d) > 1) or (forall <assgn> a=\"{<var> l} := {<rhs> r}\" in start: before(l, r))` is satisfiable through its second disjunct, yet solve() raises", "handled / reported as a value")
+
+
+def rule_r8(ctx):
+    """Existential elimination with a match expression: tree insertion may fill an open leaf of the inserted tree to which the match expression binds a variable;
+    such a candidate has to be skipped - asserting that it cannot happen lets AssertionError escape solve() (and, without asserts, a variable without a node continue)."""
+    f = ctx.repo.func(SOLVER, "ISLaSolver.eliminate_existential_formula", "C02.R8")
+    c = f"{SOLVER}:ISLaSolver.eliminate_existential_formula"
+    dv = [a for a in ast.walk(f) if isinstance(a, ast.Assign) and src(a.targets[0]) == "dangling_bind_expr_vars"]
+    if len(dv) != 1:
+        raise Unrecognised("C02.R8", c, "computation of the dangling match-expression variables not found")
+    asserts = [a for a in ast.walk(f) if isinstance(a, ast.Assert) and "dangling_bind_expr_vars" in src(a.test)]
+    skips = [i for i in ast.walk(f) if isinstance(i, ast.If) and src(i.test) == "dangling_bind_expr_vars" and any(isinstance(x, ast.Continue) for x in i.body)]
+    only_with_asserts = has_fact(facts(dv[0]), "assertions_activated()")
+    if skips and not asserts and not only_with_asserts:
+        ctx.ok("R8-dangling-mexpr-vars", c, "candidates with a dangling bound element are skipped", site(skips[0]), "if dangling_bind_expr_vars: continue")
+    elif asserts:
+        ctx.viol("R8-dangling-mexpr-vars", c, "candidates with a dangling bound element are skipped", site(asserts[0]),
+                 "an insertion result in which a variable of the match expression has no node is treated as impossible (assert): `exists <stmt> q=\"{<assgn> m1} ; {<stmt> m2}\" in start: (m1 = \"a := 1\")` "
+                 "makes solve() raise AssertionError, because context addition fills the open <stmt> leaf that m2 is bound to")
+    else:
+        raise Unrecognised("C02.R8", c, "handling of dangling match-expression variables not understood")
+
+
 def run(ctx) -> str:
+    ctx.guarded("R8", lambda: rule_r8(ctx))
+    ctx.guarded("R7", lambda: rule_r7(ctx))
     ctx.guarded("R1", lambda: rule_r1(ctx))
     ctx.guarded("R2R3R4", lambda: rule_r2_r3_r4(ctx))
     # exceptions escaping the SMT fast path escape solve() (no handler in between): same may-raise analysis as C05
